@@ -168,6 +168,33 @@ func checkC14(c *Ctx) {
 		"SexpHash.HashSet": "set", "SexpHash.HashDelete": "delete", "SetHashKeyOrder": "reorder (decoders)",
 		"SexpHash.CloneFrom": "clone", "MakeHash": "constructor",
 	}
+	// a method of the hash that only the allowed writers call is part of them (a helper split off from HashDelete)
+	hashT := c.named("SexpHash")
+	for changed := true; changed; {
+		changed = false
+		for _, g := range c.zygoFuncs() {
+			if g.Parent() != nil || hashT == nil || !isMethodOf(g, hashT) || allowed[fnName(g)] != "" {
+				continue
+			}
+			callers := c.callersOf(g)
+			if len(callers) == 0 {
+				continue
+			}
+			role := ""
+			for caller := range callers {
+				r := allowed[fnName(topFn(caller))]
+				if r == "" {
+					role = ""
+					break
+				}
+				role = r
+			}
+			if role != "" {
+				allowed[fnName(g)] = role
+				changed = true
+			}
+		}
+	}
 	for _, fld := range []*types.Var{Map, KeyOrder, NumKeys} {
 		for _, w := range c.fieldWrites(fld) {
 			fnm := fnName(w.fn)
@@ -436,6 +463,14 @@ func checkC14(c *Ctx) {
 					if bi, ok := x.Call.Value.(*ssa.Builtin); ok && bi.Name() == "delete" && derivesFromField(x.Call.Args[0], Map, 0) {
 						what = "bucket"
 					}
+					// the order update made by a helper of the delete routine
+					if g := x.Call.StaticCallee(); g != nil && allowed[fnName(g)] == "delete" && g != del {
+						for _, w := range c.fieldWrites(KeyOrder) {
+							if w.fn == g {
+								what = "order"
+							}
+						}
+					}
 				}
 				if what == "" {
 					continue
@@ -659,17 +694,25 @@ func checkC14(c *Ctx) {
 		// the order entry dropped by a delete belongs to the deleted pair's bucket
 		if hashExpr != nil {
 			okBucket := false
-			eachInstr(del, func(b *ssa.BasicBlock, i int, in ssa.Instruction) {
-				call, ok := in.(*ssa.Call)
-				if !ok || call.Call.StaticCallee() != hashExpr {
-					return
+			delFns := []*ssa.Function{del}
+			for _, g := range c.zygoFuncs() {
+				if g != del && g.Parent() == nil && len(callsOf(del, g)) > 0 && len(c.callersOf(g)) == 1 {
+					delFns = append(delFns, g) // a helper that only the delete routine calls
 				}
-				if ld, ok := call.Call.Args[1].(*ssa.UnOp); ok && ld.Op == token.MUL {
-					if ia, ok := ld.X.(*ssa.IndexAddr); ok && derivesFromField(ia.X, KeyOrder, 0) {
-						okBucket = true
+			}
+			for _, df := range delFns {
+				eachInstr(df, func(b *ssa.BasicBlock, i int, in ssa.Instruction) {
+					call, ok := in.(*ssa.Call)
+					if !ok || call.Call.StaticCallee() != hashExpr {
+						return
 					}
-				}
-			})
+					if ld, ok := call.Call.Args[1].(*ssa.UnOp); ok && ld.Op == token.MUL {
+						if ia, ok := ld.X.(*ssa.IndexAddr); ok && derivesFromField(ia.X, KeyOrder, 0) {
+							okBucket = true
+						}
+					}
+				})
+			}
 			c.check(okBucket, "C14-DEL", "SexpHash.HashDelete", "order entry dropped is of the deleted pair's bucket", del.Pos(),
 				"the order-list entry is matched on its hash value as well as on Compare",
 				"the order-list entry to drop is chosen by Compare alone: keys that compare equal but hash differently (['a' 1] and [97 1]) are different keys, and deleting one removes the other from the order list")
